@@ -587,6 +587,56 @@ def r10_7(ctx, counts) -> RuleResult:
     return res
 
 
+def r10_8(ctx, counts) -> RuleResult:
+    """value-space limits of xs:float"""
+    model: Model = ctx.model
+    res = RuleResult(
+        'R10.8', 'FLOAT-VALUE-SPACE-LIMITS',
+        'xs:float is IEEE 754 single precision: the largest finite value is (2 − 2^-23)·2^127 ≈ '
+        '3.4028235E38 and the smallest positive one is the subnormal 2^-149 ≈ 1.4E-45. The '
+        'constructor of the Float class emulates the range on a Python float with comparisons '
+        'against constants; constant folding of those comparisons must give an overflow bound in '
+        '[3.4028234E38, 3.4028236E38] and a flush-to-zero threshold not above 2^-149: a larger '
+        'threshold turns representable values into zero (xs:float("1.17549435E-38"), the '
+        'smallest normal value, was 0).')
+    cls = model.find_class('Float')
+    f = cls.methods.get('__new__')
+    if f is None:
+        raise AnalysisError('Float.__new__ vanished')
+    n = 0
+    for cmp_ in [x for x in walk_local(f.node) if isinstance(x, ast.Compare)]:
+        for e in [cmp_.left] + list(cmp_.comparators):
+            try:
+                v = model.fold(f.module, e)
+            except Exception:
+                continue
+            if isinstance(v, bool) or not isinstance(v, (int, float)) or v == 0:
+                continue
+            a = abs(float(v))
+            n += 1
+            if a > 1:
+                ok = 3.4028234e38 <= a <= 3.4028236e38
+                res.instances.append(f'{f.key}: overflow bound {v!r} within single precision '
+                                     f'maximum={ok}')
+                what = 'overflow bound'
+            else:
+                ok = a <= 2 ** -149
+                res.instances.append(f'{f.key}: flush-to-zero threshold {v!r} <= 2^-149={ok}')
+                what = 'underflow threshold'
+            if ok:
+                res.ok()
+            else:
+                res.fail(finding('R10.8', f, cmp_, f'{what} {v!r}',
+                                 f'`{stmt_text(cmp_)[:60]}`: the {what} {v!r} is not the '
+                                 f'single-precision limit (max 3.4028235E38, min subnormal '
+                                 f'2^-149 = 1.4E-45): representable xs:float values become '
+                                 f'{"INF" if a > 1 else "0"}'))
+    counts['float_limit_constants'] = n
+    if n < 3:
+        raise AnalysisError(f'{f.key}: only {n} range constants located')
+    return res
+
+
 def run(ctx) -> dict:
     spec = json.load(open(SPEC))
     counts: dict[str, int] = {}
@@ -601,6 +651,7 @@ def run(ctx) -> dict:
         raise AnalysisError(f'R10.6: only {len(r6.instances)} trailing-zero strips located')
     results.append(r6)
     results.append(r10_7(ctx, counts))
+    results.append(r10_8(ctx, counts))
     # memoised conversion helpers must be keyed by strings only (0.0 / -0.0 share a slot)
     from .c05_purity import r05_7
     results.append(r05_7(ctx, counts))
